@@ -472,6 +472,59 @@ func runC10(r *Run) {
 		r.check(wk == rk, "TrustProxyConfig.ips:key-agreement", r.fpos(w), "both sides key the set by "+short(rk),
 			"the single-address set is written under "+short(wk)+" and looked up under "+short(rk)+": a proxy written as 2001:DB8::1 or 2001:0db8::1 is never matched by the peer 2001:db8::1, whose forwarded values are then ignored")
 	})
+
+	r.rule("R7", "the lookup tables are rebuilt from Proxies alone: New gives every table handleTrustedProxy fills a fresh value on every path, before the first entry is added (a Config obtained from another app carries that app's tables) (E1)", func() {
+		w := r.Fn("", "(*App).handleTrustedProxy")
+		tables := map[string]bool{}
+		for _, in := range instrsWhere(w, func(in ssa.Instruction) bool { _, ok := in.(*ssa.MapUpdate); return ok }) {
+			if fv := fieldOfValue(stripValue(in.(*ssa.MapUpdate).Map)); fv != nil && fieldOwner(fv) == "TrustProxyConfig" {
+				tables[fv.Name()] = true
+			}
+		}
+		for _, fr := range fieldRefs(w) {
+			if fr.Write && strings.HasPrefix(fr.Name, "TrustProxyConfig.") {
+				tables[fr.Var.Name()] = true
+			}
+		}
+		r.need(len(tables) >= 2, "handleTrustedProxy fills at least two tables of TrustProxyConfig")
+		f := r.Fn("", "New")
+		isFill := func(in ssa.Instruction) bool {
+			ci, ok := in.(ssa.CallInstruction)
+			return ok && ci.Common().StaticCallee() == w
+		}
+		var names []string
+		for n := range tables {
+			names = append(names, n)
+		}
+		sort.Strings(names)
+		for _, name := range names {
+			isReset := func(in ssa.Instruction) bool {
+				st, ok := in.(*ssa.Store)
+				if !ok {
+					return false
+				}
+				fa, ok := st.Addr.(*ssa.FieldAddr)
+				if !ok {
+					return false
+				}
+				fv := fieldVar(fa.X.Type(), fa.Field)
+				if fv == nil || fv.Name() != name || fieldOwner(fv) != "TrustProxyConfig" {
+					return false
+				}
+				switch v := stripValue(st.Val).(type) {
+				case *ssa.MakeMap, *ssa.MakeSlice:
+					return true
+				case *ssa.Const:
+					return v.Value == nil
+				}
+				return false
+			}
+			_, hitFill := reach(entryOf(f), isFill, nil, isReset)
+			_, hitRet := reach(entryOf(f), isReturn, nil, isReset)
+			r.check(hitFill == nil && hitRet == nil, "New:fresh-"+name, r.fpos(f), "TrustProxyConfig."+name+" is given a fresh value on every path through New, before any entry is added",
+				"New can keep the TrustProxyConfig."+name+" it was handed: an app built from another app's Config() with a different (or empty) Proxies list still trusts the first app's proxies, so a peer outside the configured set has its forwarding headers honoured")
+		}
+	})
 }
 
 // listCuts: true edges of the explicit membership tests (ips map lookup ok, ipNet.Contains).
